@@ -596,7 +596,8 @@ func (q *checker) bcheckAssignment(lhs *a.Expr, op t.ID, rhs *a.Expr) error {
 				}
 				return x, nil
 			}
-			if xRHS.Mentions(lhs) {
+			if xRHS.Mentions(lhs) || rhs.Mentions(lhs) {
+				// For "x += x", the old x can't be re-expressed as (x - x).
 				return nil, nil
 			}
 			switch op {
